@@ -864,15 +864,27 @@ fn one_op<B: BmCtl>(w: &mut GmWorld<B>, tracked: bool, step: usize) -> Step {
             if n as usize <= room && got[..] != w.model_read(addr, got.len())[..] {
                 st.got = GO::Other("the descriptor received wrong bytes".into());
                 st.exp = Some(GO::Unit);
-            } else if let GO::Other(_) | GO::Partial(..) | GO::Iga = st.got {
-                st.got = GO::Unit;
+            } else {
+                // short and interrupted write(2) calls never change the outcome: the flat model decides it
+                st.free_result = false;
+                st.exp = Some(if room == 0 {
+                    GO::Iga
+                } else if exact {
+                    if room < count {
+                        GO::Partial(count, room)
+                    } else {
+                        GO::Unit
+                    }
+                } else {
+                    GO::Count(count.min(room))
+                });
             }
         }
         _ => {
             // scripted reader that may fail part-way
             let count = gen_nlen(room);
             let script = gen_script(5);
-            let mut ep = Scripted::new(script.clone(), count + 32, count + 64);
+            let mut ep = Scripted::new(script.clone(), count + 32, count + script.len() + 64);
             let exact = cx().a(2) == 0;
             st.kind = if exact { "read_exact_volatile_from(scripted)" } else { "read_volatile_from(scripted)" };
             st.desc = format!("{}({:#x}, scripted {:?}, {})", st.kind, addr, script, count);
